@@ -4,3 +4,5 @@ pub mod setup;
 pub mod c08;
 pub mod c07;
 pub mod c03;
+pub mod c13;
+pub mod c02;
